@@ -178,6 +178,9 @@ pub enum Cmd {
 	DropPending,
 	Send(u32),
 	TrySend(u32),
+	/// `send_timeout` with one second of patience; a message handed back on time-out is sent again with `send`
+	/// (the documented way to go on after a time-out)
+	SendTimeout(u32),
 	CloneSink,
 	DropSink(u8),
 	IsClosed,
@@ -302,6 +305,20 @@ async fn actor(method: &'static str, params: Params<'static>, pending: PendingSu
 					match s.send(raw).await {
 						Ok(()) => Ack::SendOk,
 						Err(_) => Ack::SendErr,
+					}
+				}
+				None => Ack::WrongState,
+			},
+			Cmd::SendTimeout(n) => match sinks.iter().flatten().next() {
+				Some(s) => {
+					let raw = serde_json::value::to_raw_value(&item_value(&tag, n)).unwrap();
+					match s.send_timeout(raw, Duration::from_secs(1)).await {
+						Ok(()) => Ack::SendOk,
+						Err(jsonrpsee_core::server::SendTimeoutError::Closed(_)) => Ack::SendErr,
+						Err(jsonrpsee_core::server::SendTimeoutError::Timeout(m)) => match s.send(m).await {
+							Ok(()) => Ack::SendOk,
+							Err(_) => Ack::SendErr,
+						},
 					}
 				}
 				None => Ack::WrongState,
